@@ -387,6 +387,20 @@ impl Monitor for C19 {
                         "withdraw_emissions" if is_target => {
                             self.cov.probe("emissions_paid_to_authority");
                             self.cov.eval("withdraw_emissions".into());
+                            // the destination is the authority's choice: the payout must carry
+                            // the authority's signature (the group admin's while the account is
+                            // frozen) - nobody else may choose where an account's rewards go
+                            let acc_key = ix.accounts[1].pubkey;
+                            let signer = ix.accounts.get(2).map(|m| m.pubkey);
+                            if let (Some(x0), Some(sg)) = (model::account_of(a, &acc_key), signer) {
+                                let frozen = x0.account_flags & marginfi_type_crate::types::ACCOUNT_FROZEN != 0;
+                                let admin = model::group_of(a, &x0.group).map(|g| g.admin);
+                                let entitled = if frozen { Some(sg) == admin } else { sg == x0.authority };
+                                if moved > 0 && !entitled {
+                                    out.push(viol("C19", "emissions_paid_on_somebody_elses_signature", ix.tag,
+                                        format!("account {acc_key}: authority {} signer {sg} moved {moved}", x0.authority), idx));
+                                }
+                            }
                         }
                         "withdraw_emissions_permissionless" if is_target => {
                             self.cov.probe("emissions_paid_permissionless");
